@@ -7,12 +7,17 @@
 //! crate (built from /repo's working tree) does on the case's input.
 
 mod common;
+mod c02;
+mod c09;
+mod c10;
 mod c12;
 mod c13;
 mod c14;
 mod c15;
 mod c19;
 mod c20;
+mod gen;
+mod prog;
 
 use common::*;
 
@@ -31,6 +36,9 @@ fn main() {
     let mut em = Emitter::new(shard, nshards);
     let mut rng = Rng::new(seed);
     match prop {
+        "C02" => c02::run(&mut em, &mut rng, thorough),
+        "C09" => c09::run(&mut em, &mut rng, thorough),
+        "C10" => c10::run(&mut em, &mut rng, thorough),
         "C12" => c12::run(&mut em, &mut rng, thorough),
         "C13" => c13::run(&mut em, &mut rng, thorough),
         "C14" => c14::run(&mut em, &mut rng, thorough),
